@@ -2,7 +2,7 @@
    For every encoder X and ALL arguments:   run ast_X (the arguments as values) = Model.Requests.encode_X arguments,
    i.e. the term the translator must produce from the source denotes the hand-written model the C04 theorems are about. *)
 From Coq Require Import String Lia.
-From AV Require Import Base.Util Model.Prim Model.MsgSet Model.Requests Model.EncDSL Model.EncAst
+From AV Require Import Base.Util Model.Prim Model.Crc Model.MsgSet Model.Requests Model.EncDSL Model.EncAst
      Proofs.ReqParseGroup Proofs.ReqParseProducer.
 Open Scope string_scope.
 Open Scope list_scope.
@@ -275,78 +275,191 @@ Proof.
   bind_cases.
 Qed.
 
-(* ------------------------------------------------------------------ Produce (message lists that carry their timestamps)
-   The encoder language does not model the clock: ILetMsgSet stamps a format-1 message that has no timestamp with 0.
-   For payloads whose format-1 messages all carry a timestamp ([stamped]; true of everything create_message builds) the
-   clock is never read and the term computes exactly the model, whatever the clock. *)
+(* ================================================================== the clocked part: messages, message sets, Produce *)
+Definition msg_val (m : message) : val :=
+  VRec [("magic", VInt (m_magic m)); ("attributes", VInt (m_attr m)); ("key", VStr (m_key m)); ("value", VStr (m_value m));
+        ("timestamp", match m_ts m with Some t => VInt t | None => VNone end)].
+
+Lemma msg_of_msg_val m : msg_of_val (msg_val m) = Some m.
+Proof. destruct m as [mg at_ k v [t|]]; reflexivity. Qed.
+
+Lemma msgs_of_msg_vals ms : msgs_of_vals (map msg_val ms) = Some ms.
+Proof. induction ms as [|m r IH]; cbn [map msgs_of_vals]; [reflexivity|]. now rewrite msg_of_msg_val, IH. Qed.
+
+Ltac dslc := cbn [runc runc_item pure_c run_item eval eval_int eval_str eval_fields eval_cond nth_error app vfield assoc
+                  String.eqb Ascii.eqb Bool.eqb bind vbytes fst snd].
+
+(* ------------------------------------------------------------------ _encode_message *)
+Theorem message_sound clock k m :
+  runc ast_encode_message [msg_val m] clock k
+  = do b <- encode_message (clock k) m; Ok (b, if uses_clock m then S k else k).
+Proof.
+  unfold ast_encode_message, encode_message, uses_clock, msg_val. cbn [runc]. rewrite runc_item_cond.
+  cbn [eval_cond eval nth_error vfield assoc String.eqb Ascii.eqb Bool.eqb].
+  destruct (m_magic m =? 0)%Z eqn:M0.
+  - cbn [runc]. rewrite runc_item_crc, runc_simple by reflexivity. unfold pure_c. dsl. cbn [pack_list].
+    assert (M1 : (m_magic m =? 1)%Z = false) by (apply Z.eqb_eq in M0; rewrite M0; reflexivity).
+    rewrite M1. cbn [andb]. bind_cases.
+  - cbn [runc]. rewrite runc_item_cond. cbn [eval_cond eval nth_error vfield assoc String.eqb Ascii.eqb Bool.eqb].
+    destruct (m_magic m =? 1)%Z eqn:M1; [|reflexivity]. cbn [andb].
+    cbn [runc]. rewrite runc_item_cond. cbn [eval_cond eval nth_error vfield assoc String.eqb Ascii.eqb Bool.eqb].
+    destruct (m_ts m) as [t|].
+    + cbn [runc]. rewrite runc_item_crc, runc_simple by reflexivity. unfold pure_c. dsl. cbn [pack_list]. bind_cases.
+    + cbn [runc]. rewrite runc_item_letnow. cbn [runc]. rewrite runc_item_crc, runc_simple by reflexivity.
+      unfold pure_c. dsl. cbn [pack_list]. bind_cases.
+Qed.
+
+(* ------------------------------------------------------------------ _encode_message_set *)
+Definition optint_val (o : option Z) : val := match o with Some z => VInt z | None => VNone end.
+
+Lemma clock_uses_cons m r k :
+  ((if uses_clock m then S k else k) + clock_uses r = k + clock_uses (m :: r))%nat.
+Proof. unfold clock_uses. cbn [filter]. destruct (uses_clock m); cbn [length]; lia. Qed.
+
+Definition set_body : prog :=
+  [ICond (CEq (EVar 2) 0)
+     [ILetMessage (EVar 4)
+        [IPack [(Fq, EAdd (EIfNone (EVar 1) (EConst 0) (EVar 1)) (EMul (EVar 3) (EIfNone (EVar 1) (EConst 0) (EConst 1)))); (Fi, ELen (EVar 5))];
+         IRaw (EVar 5)]]
+     [ICond (CEq (EVar 2) 1)
+        [ILetMessage (EVar 4)
+           [IPack [(Fq, EAdd (EIfNone (EVar 1) (EConst 0) (EVar 1)) (EMul (EVar 3) (EIfNone (EVar 1) (EConst 0) (EConst 1)))); (Fi, ELen (EVar 5))];
+            IRaw (EVar 5)]]
+        [IRaise NameErr]]].
+
+Lemma message_set_loop clock msgsv offset magic : forall msgs n k,
+  let o0 := match offset with Some o => o | None => 0%Z end in
+  let incr := match offset with Some _ => 1%Z | None => 0%Z end in
+  foldc (fun n v k => runc set_body [VList msgsv; optint_val offset; VInt magic; VInt (Z.of_nat n); v] clock k)
+        (map msg_val msgs) n k
+  = do b <- encode_message_set_from clock k msgs (o0 + Z.of_nat n * incr)%Z incr magic; Ok (b, (k + clock_uses msgs)%nat).
+Proof.
+  intros msgs. induction msgs as [|m r IH]; intros n k o0 incr; cbn [map foldc encode_message_set_from].
+  - cbn [bind]. unfold clock_uses. cbn. now rewrite Nat.add_0_r.
+  - unfold set_body at 1. cbn [runc app]. rewrite runc_item_cond. cbn [eval_cond eval nth_error].
+    assert (OFF : eval [VList msgsv; optint_val offset; VInt magic; VInt (Z.of_nat n); msg_val m]
+                    (EAdd (EIfNone (EVar 1) (EConst 0) (EVar 1)) (EMul (EVar 3) (EIfNone (EVar 1) (EConst 0) (EConst 1))))
+                  = Some (VInt (o0 + Z.of_nat n * incr))).
+    { subst o0 incr. destruct offset as [o|]; reflexivity. }
+    assert (STEP : forall k' b,
+              runc [IPack [(Fq, EAdd (EIfNone (EVar 1) (EConst 0) (EVar 1)) (EMul (EVar 3) (EIfNone (EVar 1) (EConst 0) (EConst 1)))); (Fi, ELen (EVar 5))];
+                    IRaw (EVar 5)]
+                   ([VList msgsv; optint_val offset; VInt magic; VInt (Z.of_nat n); msg_val m] ++ [VStr (Some b)]) clock k'
+              = do h <- pack_list [(Fq, (o0 + Z.of_nat n * incr)%Z); (Fi, len b)]; Ok (h ++ b, k')).
+    { intros k' b. rewrite runc_simple by reflexivity. unfold pure_c. cbn [run run_item eval_fields app]. unfold eval_int.
+      change (eval [VList msgsv; optint_val offset; VInt magic; VInt (Z.of_nat n); msg_val m; VStr (Some b)]
+                   (EAdd (EIfNone (EVar 1) (EConst 0) (EVar 1)) (EMul (EVar 3) (EIfNone (EVar 1) (EConst 0) (EConst 1)))))
+        with (eval [VList msgsv; optint_val offset; VInt magic; VInt (Z.of_nat n); msg_val m]
+                   (EAdd (EIfNone (EVar 1) (EConst 0) (EVar 1)) (EMul (EVar 3) (EIfNone (EVar 1) (EConst 0) (EConst 1))))).
+      rewrite OFF. dsl. bind_cases. }
+    specialize (IH (S n) (if uses_clock m then S k else k)). cbv zeta in IH. fold o0 in IH. fold incr in IH.
+    replace (o0 + Z.of_nat (S n) * incr)%Z with (o0 + Z.of_nat n * incr + incr)%Z in IH by lia.
+    destruct (magic =? 0)%Z eqn:M0; [|destruct (magic =? 1)%Z eqn:M1]; cbn [orb].
+    + cbn [runc]. rewrite runc_item_letmessage. cbn [eval nth_error]. rewrite msg_of_msg_val.
+      destruct (encode_message (clock k) m) as [e|]; cbn [bind]; [|reflexivity].
+      rewrite STEP. destruct (pack_list [(Fq, (o0 + Z.of_nat n * incr)%Z); (Fi, len e)]) as [h|]; cbn [bind fst snd]; [|reflexivity].
+      rewrite IH. destruct (encode_message_set_from clock _ r _ incr magic) as [t|]; cbn [bind fst snd]; [|reflexivity].
+      rewrite clock_uses_cons, !app_nil_r, <- app_assoc. reflexivity.
+    + cbn [runc]. rewrite runc_item_cond. cbn [eval_cond eval nth_error]. rewrite M1.
+      cbn [runc]. rewrite runc_item_letmessage. cbn [eval nth_error]. rewrite msg_of_msg_val.
+      destruct (encode_message (clock k) m) as [e|]; cbn [bind]; [|reflexivity].
+      rewrite STEP. destruct (pack_list [(Fq, (o0 + Z.of_nat n * incr)%Z); (Fi, len e)]) as [h|]; cbn [bind fst snd]; [|reflexivity].
+      rewrite IH. destruct (encode_message_set_from clock _ r _ incr magic) as [t|]; cbn [bind fst snd]; [|reflexivity].
+      rewrite clock_uses_cons, !app_nil_r, <- app_assoc. reflexivity.
+    + cbn [runc]. rewrite runc_item_cond. cbn [eval_cond eval nth_error]. rewrite M1. reflexivity.
+Qed.
+
+Theorem message_set_sound clock k msgs offset magic :
+  runc ast_encode_message_set [VList (map msg_val msgs); optint_val offset; VInt magic] clock k
+  = do b <- encode_message_set clock k msgs offset magic; Ok (b, (k + clock_uses msgs)%nat).
+Proof.
+  unfold ast_encode_message_set. fold set_body. cbn [runc]. rewrite runc_item_foridx. cbn [eval nth_error app].
+  rewrite (message_set_loop clock (map msg_val msgs) offset magic msgs O k). cbn [Z.of_nat].
+  unfold encode_message_set. destruct offset as [o|]; rewrite Z.mul_0_l, Z.add_0_r;
+    destruct (encode_message_set_from clock k msgs _ _ magic); cbn [bind fst snd]; rewrite ?app_nil_r; reflexivity.
+Qed.
+
+(* ------------------------------------------------------------------ Produce, in full: the clock is threaded *)
 Definition produce_val (p : produce_payload) : val :=
-  VRec [("topic", VStr (pr_topic p)); ("partition", VInt (pr_partition p)); ("messages", VMsgs (pr_messages p))].
+  VRec [("topic", VStr (pr_topic p)); ("partition", VInt (pr_partition p)); ("messages", VList (map msg_val (pr_messages p)))].
 
-Definition msgs_stamped (msgs : list message) : bool := forallb (fun m => negb (uses_clock m)) msgs.
-Definition stamped (ps : list produce_payload) : bool := forallb (fun p => msgs_stamped (pr_messages p)) ps.
+Definition group_clock_uses (g : list (text * list (Z * produce_payload))) : nat :=
+  fold_right (fun tp n => (topic_clock_uses (snd tp) + n)%nat) O g.
+Definition produce_clock_uses (ps : list produce_payload) : nat :=
+  group_clock_uses (group_by_topic_and_partition pr_topic pr_partition ps).
 
-Lemma encode_message_no_clock a b m : uses_clock m = false -> encode_message a m = encode_message b m.
-Proof.
-  unfold uses_clock, encode_message. intros U. destruct (m_magic m =? 0)%Z; [reflexivity|].
-  destruct (m_magic m =? 1)%Z; [|reflexivity]. destruct (m_ts m); [reflexivity|discriminate U].
-Qed.
+Definition part_body : prog :=
+  [ILetMsgSet (EField (EIdx (EVar 7) 1) "messages") (EIfGe (EVar 5) 2 (EConst 1) (EConst 0))
+     [IPack [(Fi, EIdx (EVar 7) 0); (Fi, ELen (EVar 8))]; IRaw (EVar 8)]].
+Definition topic_body : prog :=
+  [IAscii (EIdx (EVar 6) 0); IPack [(Fi, ELen (EIdx (EVar 6) 1))]; IFor (EIdx (EVar 6) 1) part_body].
 
-Lemma encode_set_no_clock clock clock' msgs : forall k k' o i mg,
-  msgs_stamped msgs = true ->
-  encode_message_set_from clock k msgs o i mg = encode_message_set_from clock' k' msgs o i mg.
-Proof.
-  induction msgs as [|m r IH]; intros k k' o i mg H; cbn [encode_message_set_from]; [reflexivity|].
-  unfold msgs_stamped in H. cbn [forallb] in H. apply andb_prop in H. destruct H as [Hm Hr]. apply negb_true_iff in Hm.
-  rewrite Hm. rewrite (encode_message_no_clock (clock k) (clock' k') m Hm). rewrite (IH k k' (o + i)%Z i mg Hr). reflexivity.
-Qed.
+Section ProduceLoops.
+  Variables (clock : nat -> Z) (cid : list Z) (corr : Z) (psv : val) (acks timeout v : Z).
+  Let pv (pp : Z * produce_payload) : val := VTup [VInt (fst pp); produce_val (snd pp)].
 
-Definition enc_produce_part (magic : Z) (pp : Z * produce_payload) : res (list Z) :=
-  do ms <- encode_message_set (fun _ => 0%Z) O (pr_messages (snd pp)) None magic;
-  do ph <- pack_list [(Fi, fst pp); (Fi, len ms)];
-  Ok (ph ++ ms).
+  Lemma parts_loop vt : forall inner i k,
+    foldc (fun _ x k => runc part_body [vbytes cid; VInt corr; psv; VInt acks; VInt timeout; VInt v; vt; x] clock k) (map pv inner) i k
+    = do b <- encode_produce_partitions clock k (produce_magic v) inner; Ok (b, (k + topic_clock_uses inner)%nat).
+  Proof.
+    induction inner as [|[pt x] r IH]; intros i k; cbn [map foldc encode_produce_partitions topic_clock_uses fold_right].
+    - cbn [bind]. now rewrite Nat.add_0_r.
+    - unfold part_body at 1. cbn [runc]. rewrite runc_item_letmsgset. subst pv. unfold produce_val at 1.
+      cbn [app eval nth_error vfield assoc String.eqb Ascii.eqb Bool.eqb fst snd]. rewrite msgs_of_msg_vals.
+      unfold eval_int. cbn [eval nth_error]. unfold produce_magic.
+      assert (MG : match (if (2 <=? v)%Z then Some (VInt 1) else Some (VInt 0)) with Some (VInt z) => Ok z | _ => Err TypeErr end
+                   = Ok (if (2 <=? v)%Z then 1 else 0)%Z) by (destruct (2 <=? v)%Z; reflexivity).
+      rewrite MG. cbn [bind].
+      destruct (encode_message_set clock k (pr_messages x) None (if (2 <=? v)%Z then 1 else 0)%Z) as [ms|]; cbn [bind]; [|reflexivity].
+      rewrite runc_simple by reflexivity. unfold pure_c. dsl. cbn [fst snd].
+      destruct (pack_list [(Fi, pt); (Fi, len ms)]) as [ph|]; cbn [bind fst snd]; [|reflexivity].
+      rewrite (IH (S i) (k + clock_uses (pr_messages x))%nat). fold (produce_magic v).
+      destruct (encode_produce_partitions clock (k + clock_uses (pr_messages x)) (produce_magic v) r) as [t|]; cbn [bind fst snd]; [|reflexivity].
+      rewrite !app_nil_r, <- app_assoc, Nat.add_assoc. reflexivity.
+  Qed.
 
-Lemma produce_partitions_no_clock clock magic : forall ps k,
-  (forall pp, In pp ps -> msgs_stamped (pr_messages (snd pp)) = true) ->
-  encode_produce_partitions clock k magic ps = enc_all (enc_produce_part magic) ps.
-Proof.
-  induction ps as [|[pt x] r IH]; intros k H; cbn [encode_produce_partitions enc_all]; [reflexivity|].
-  rewrite (IH _ (fun pp I => H pp (or_intror I))). unfold enc_produce_part, encode_message_set. cbn [fst snd].
-  rewrite (encode_set_no_clock clock (fun _ => 0%Z) (pr_messages x) k O 0%Z 0%Z magic (H (pt, x) (or_introl eq_refl))).
-  bind_cases.
-Qed.
-
-Lemma produce_topics_no_clock clock magic : forall g k,
-  (forall tp pp, In tp g -> In pp (snd tp) -> msgs_stamped (pr_messages (snd pp)) = true) ->
-  encode_produce_topics clock k magic g = encode_topics (enc_produce_part magic) g.
-Proof.
-  unfold encode_topics. induction g as [|[t inner] r IH]; intros k H; cbn [encode_produce_topics enc_all]; [reflexivity|].
-  rewrite (IH _ (fun tp pp I1 I2 => H tp pp (or_intror I1) I2)).
-  rewrite (produce_partitions_no_clock clock magic inner k (fun pp I => H (t, inner) pp (or_introl eq_refl) I)).
-  cbn [fst snd]. bind_cases.
-Qed.
+  Lemma topics_loop : forall g i k,
+    foldc (fun _ x k => runc topic_body [vbytes cid; VInt corr; psv; VInt acks; VInt timeout; VInt v; x] clock k) (vgrouped produce_val g) i k
+    = do b <- encode_produce_topics clock k (produce_magic v) g; Ok (b, (k + group_clock_uses g)%nat).
+  Proof.
+    induction g as [|[t inner] r IH]; intros i k; cbn [vgrouped map foldc encode_produce_topics group_clock_uses fold_right].
+    - cbn [bind]. now rewrite Nat.add_0_r.
+    - unfold topic_body at 1. cbn [runc fst snd].
+      rewrite runc_item_simple by reflexivity. unfold pure_c at 1. cbn [run_item]. unfold eval_str. cbn [eval nth_error bind].
+      destruct (write_short_ascii t) as [n|]; cbn [bind fst snd]; [|reflexivity].
+      rewrite runc_item_simple by reflexivity. unfold pure_c at 1. cbn [run_item eval_fields]. unfold eval_int. cbn [eval nth_error bind].
+      rewrite llen_map, pack1.
+      destruct (pack Fi (llen inner)) as [c|]; cbn [bind fst snd]; [|reflexivity].
+      rewrite runc_item_for. cbn [eval nth_error app].
+      pose proof (parts_loop (VTup [VStr t; VList (map (fun pp : Z * produce_payload => VTup [VInt (fst pp); produce_val (snd pp)]) inner)]) inner O k) as PL.
+      subst pv. rewrite PL. clear PL.
+      destruct (encode_produce_partitions clock k (produce_magic v) inner) as [ps|]; cbn [bind fst snd]; [|reflexivity].
+      pose proof (IH (S i) (k + topic_clock_uses inner)%nat) as IH'. unfold vgrouped in IH'. rewrite IH'.
+      destruct (encode_produce_topics clock (k + topic_clock_uses inner) (produce_magic v) r) as [tt|]; cbn [bind fst snd]; [|reflexivity].
+      rewrite !app_nil_r, <- !app_assoc, Nat.add_assoc. reflexivity.
+  Qed.
+End ProduceLoops.
 
 Theorem produce_sound clock cid corr ps acks timeout v :
-  stamped ps = true ->
-  run ast_encode_produce_request [vbytes cid; VInt corr; VList (map produce_val ps); VInt acks; VInt timeout; VInt v]
-  = encode_produce_request clock cid corr ps acks timeout v.
+  runc ast_encode_produce_request [vbytes cid; VInt corr; VList (map produce_val ps); VInt acks; VInt timeout; VInt v] clock O
+  = do w <- encode_produce_request clock cid corr ps acks timeout v; Ok (w, produce_clock_uses ps).
 Proof.
-  intros ST.
-  unfold ast_encode_produce_request, encode_produce_request, PRODUCE_KEY, produce_header_version. cbn [run]. rewrite run_item_for.
-  cbn [eval nth_error app]. rewrite (vgroup_map pr_topic pr_partition produce_val ps) by reflexivity.
-  rewrite (produce_topics_no_clock clock (produce_magic v) (group_by_topic_and_partition pr_topic pr_partition ps) O).
-  2:{ intros [t inner] [pt x] I1 I2. cbn [snd] in *.
-      destruct (group_sound pr_topic pr_partition ps t inner pt x I1 I2) as (Ix & _ & _).
-      unfold stamped in ST. rewrite forallb_forall in ST. exact (ST x Ix). }
-  pose proof (grouped_loops produce_val (enc_produce_part (produce_magic v))
-                [ILetMsgSet (EField (EIdx (EVar 7) 1) "messages") (EIfGe (EVar 5) 2 (EConst 1) (EConst 0))
-                   [IPack [(Fi, EIdx (EVar 7) 0); (Fi, ELen (EVar 8))]; IRaw (EVar 8)]]
-                [vbytes cid; VInt corr; VList (map produce_val ps); VInt acks; VInt timeout; VInt v]
-                (group_by_topic_and_partition pr_topic pr_partition ps)) as G.
-  cbn [length app] in G. rewrite G; clear G.
-  - dsl. rewrite (vgroup_map pr_topic pr_partition produce_val ps) by reflexivity. dsl. rewrite llen_vgrouped.
-    unfold eval_int. cbn [eval nth_error]. destruct (2 <=? v)%Z; dsl; bind_cases.
-  - intros t inner pt x. cbn [run]. rewrite run_item_let. unfold produce_val, enc_produce_part, produce_magic.
-    dsl. unfold eval_int. cbn [eval nth_error fst snd]. destruct (2 <=? v)%Z; cbn [bind];
-      destruct (encode_message_set (fun _ => 0%Z) O (pr_messages x) None _) as [ms|]; cbn [bind]; try reflexivity;
-      dsl; bind_cases.
+  unfold ast_encode_produce_request, encode_produce_request, PRODUCE_KEY, produce_header_version, produce_clock_uses.
+  fold part_body. fold topic_body. cbn [runc].
+  pose proof (topics_loop clock cid corr (VList (map produce_val ps)) acks timeout v
+                (group_by_topic_and_partition pr_topic pr_partition ps) O) as TL.
+  rewrite runc_item_simple by reflexivity. unfold pure_c at 1. cbn [run_item]. unfold eval_str, eval_int. cbn [eval nth_error vbytes bind].
+  assert (HV : match (if (2 <=? v)%Z then Some (VInt 2) else Some (VInt v)) with Some (VInt z) => Ok z | _ => Err TypeErr end
+               = Ok (if (2 <=? v)%Z then 2 else v)%Z) by (destruct (2 <=? v)%Z; reflexivity).
+  rewrite HV. cbn [bind].
+  destruct (encode_message_header cid corr 0 (if (2 <=? v)%Z then 2 else v)%Z) as [h|]; cbn [bind fst snd]; [|reflexivity].
+  rewrite runc_item_simple by reflexivity. unfold pure_c at 1. cbn [run_item eval_fields]. unfold eval_int. cbn [eval nth_error bind].
+  rewrite (vgroup_map pr_topic pr_partition produce_val ps) by reflexivity. rewrite llen_vgrouped.
+  destruct (pack_list [(Fh, acks); (Fi, timeout); (Fi, llen (group_by_topic_and_partition pr_topic pr_partition ps))]) as [b|];
+    cbn [bind fst snd]; [|reflexivity].
+  rewrite runc_item_for. cbn [eval nth_error app].
+  rewrite (vgroup_map pr_topic pr_partition produce_val ps) by reflexivity. rewrite TL.
+  destruct (encode_produce_topics clock 0 (produce_magic v) (group_by_topic_and_partition pr_topic pr_partition ps)) as [t|];
+    cbn [bind fst snd]; [|reflexivity].
+  rewrite !app_nil_r. reflexivity.
 Qed.
